@@ -129,7 +129,7 @@ def gen_case(rng, k):
 MALFORMED = ['missing-leaf', 'row-out-of-range', 'row-negative', 'no-sel', 'no-basic', 'dup-col-names',
              'short-col-names', 'group-removed', 'query-index-disturbed', 'marker-index-out-of-range',
              'query-matrix-lacks-gene', 'query-declared-raw', 'bad-parents', 'direct-lacks-leaf', 'direct-lacks-gene',
-             'direct-raw', 'direct-dup-cells']
+             'direct-raw', 'direct-dup-cells', 'zero-genes']
 
 
 def make_malformed(rng, case):
@@ -167,6 +167,11 @@ def make_malformed(rng, case):
         case['cache_edit'] = ['none', rng.random()]
     elif kind == 'query-declared-raw':
         case['qnorm'] = 'raw'
+    elif kind == 'zero-genes':
+        # a statistics file without any gene (sum of shape (n, 0)): aggregate_stats raises ValueError (zero-size array to
+        # reduction operation minimum) -> RefSide.RE_ZEROGENES = 23 (audit 3, item 13)
+        case['col_names'] = []
+        case['sums'] = [[] for _ in case['sums']]
     elif kind == 'bad-parents':
         lv = case['levels']
         case['extra_parents'] = [[lv[-1], rng.choice(leaves)], [lv[0], 'no_such_node'], ['no_such_level', leaves[0]]]
@@ -238,6 +243,8 @@ def err_code(e):
         return None
     if isinstance(e, AttributeError) and names[-1] == '__init__':
         return 6
+    if isinstance(e, ValueError) and 'aggregate_stats' in names and 'zero-size array to reduction operation' in msg:
+        return 23
     return None
 
 
